@@ -275,7 +275,8 @@ func (f *Frame) finishRecover() {
 	s.fact(eq(pr, or(f.panicEdge...)))
 	// the state at the panic is unknown: havoc every heap key except memory that existed before this call
 	heap := Heap{}
-	for k, srt := range s.sorts {
+	for _, k := range sortedKeys(s.sorts) {
+		srt := s.sorts[k]
 		if strings.HasPrefix(k, "it") {
 			continue
 		}
@@ -429,7 +430,8 @@ func (f *Frame) writableGoal(ref, key string) string {
 		return "true"
 	}
 	goal := app(">=", ref, s.alloc0)
-	for mk, locs := range s.modKeys {
+	for _, mk := range sortedModKeys(s.modKeys) {
+		locs := s.modKeys[mk]
 		if mk == key || strings.HasPrefix(key, mk+".") {
 			for _, l := range locs {
 				goal = or(goal, eq(ref, l.Ref))
